@@ -85,6 +85,11 @@ func RunConc(w *tr.Writer, st *ConcStats, tid int, r *rand.Rand, withMissing boo
 		db = util.NewLevelNodeDB(util.NewMemoryNodeDB(), stateDB, false)
 		t = util.NewMerklePatriciaTrie(db, 1, t.GetRoot(), NewTxnCache())
 	}
+	if r.Intn(2) == 0 {
+		// the trie's node cache was committed to its block cache before the concurrent phase (as after a transaction):
+		// lookups then find the nodes one level down in the cache hierarchy
+		t.Cache().Commit()
+	}
 	judged := true
 	if withMissing {
 		// remove one non-root node so that readers run into a missing node (race-only run)
